@@ -4212,6 +4212,10 @@ func formatID(buf *TrackedBuffer, original, lowered string) {
 	}
 
 	for i, c := range original {
+		if c == '/' {
+			// A slash may be part of an unquoted name (file paths), but not everywhere: after a dot it starts a new path.
+			goto mustEscape
+		}
 		if !isLetter(uint16(c)) && (!isDbSystemVariable || !isCarat(uint16(c))) {
 			if i == 0 || !isDigit(uint16(c)) {
 				goto mustEscape
